@@ -445,7 +445,24 @@ func main() {
 	if *monitor == "field" {
 		every = run.Pick(24, 3)
 	}
-	workload.All(sink{run}, rng, run.Pick(1, 2), nil)
+	// the workload runs under one loop-iteration budget (every loop head of the instrumented library ticks): a call
+	// that never returns ends the run with a verdict on logical steps instead of the wall-clock watchdog
+	budget := int64(run.Pick(2, 40)) * 1_000_000_000
+	zzverifrt.Arm(budget)
+	func() {
+		defer func() {
+			if e := recover(); e != nil {
+				if _, ok := e.(zzverifrt.BudgetExceeded); ok {
+					run.Violate("in-situ/workload-does-not-terminate", fmt.Sprintf("the whole-library workload executed more than %d loop iterations (a complete run takes about 1/100 of that): some call does not return", budget), map[string]any{"monitor": *monitor})
+					return
+				}
+				panic(e)
+			}
+		}()
+		workload.All(sink{run}, rng, run.Pick(1, 2), nil)
+	}()
+	run.Max("in-situ/loop-ticks", zzverifrt.Ticks())
+	zzverifrt.Arm(0)
 	zzverifrt.Handler = nil
 	run.Sample("hook", map[string]any{"monitor": *monitor, "note": "events are hooked calls inside the library during the workload"})
 	run.Sample("hook-counts", "see histogram hook/*")
